@@ -495,7 +495,15 @@ def population_objects(part):
 
             def a_se(t):
                 return [A.arr('th' + t, (n,), True), A.arr('psi' + t, (n_ids, d), True), cov(t), A.arr('g' + t, (n_ids, d))]
-            return [('compute_log_likelihood', lambda o, a: o.compute_log_likelihood(a[0], a[1], **a[2]), a_ll),
+            def a_flat(t, width):
+                return [A.arr('th' + t, (n,), True), A.arr('eta' + t, (n_ids * width,), True), cov(t)]
+            flat = []
+            if hasattr(m, 'get_population_models'):
+                # composed models also accept the individual-level entries as one flat vector (all dimensions, or only those with individual-level parameters)
+                flat.append(('compute_individual_parameters(flat eta)', lambda o, a: o.compute_individual_parameters(a[0], a[1], **a[2]), lambda t: a_flat(t, d)))
+                if 0 < m.n_hierarchical_dim() < d:
+                    flat.append(('compute_individual_parameters(flat eta, hierarchical dimensions)', lambda o, a: o.compute_individual_parameters(a[0], a[1], **a[2]), lambda t: a_flat(t, m.n_hierarchical_dim())))
+            return flat + [('compute_log_likelihood', lambda o, a: o.compute_log_likelihood(a[0], a[1], **a[2]), a_ll),
                     ('compute_sensitivities', lambda o, a: o.compute_sensitivities(a[0], a[1], dlogp_dpsi=a[3], **a[2]), a_se),
                     ('compute_sensitivities(reduce)', lambda o, a: o.compute_sensitivities(a[0], a[1], dlogp_dpsi=a[3], reduce=True, **a[2]), a_se),
                     ('compute_individual_parameters', lambda o, a: o.compute_individual_parameters(a[0], a[1], **a[2]), a_ll),
